@@ -485,5 +485,625 @@ theorem collectN_fuel (cast : CastFn) (t : MetaTable) (excl : Bool) :
       simp only [List.length_drop] at this
       exact ih w' i' (acc ++ [p]) (by omega)
 
+/-! ## the provided `Iterator` methods: `nth`, the adapters, the consumers
+
+Relative to the world `w0` a call starts in: as long as every registered present cell can be
+borrowed in the iterator's way and has an address-preserving cast (`Drivable`), the iterator is a
+list iterator over `remaining t w0 i` — the registered types from the cursor on that are present
+— and the world differs from `w0` exactly by one more borrow on the cells of the items that are
+alive (`DInv`). -/
+
+/-- the registered types from position `i` on whose resource is present -/
+def remaining (t : MetaTable) (w : MWorld) (i : Nat) : List Nat := (t.tys.drop i).filter w.present
+
+/-- every registered present cell can be borrowed in the iterator's way, its cast keeps the
+address, and its flag is well-formed (`shared 0` is not a state of an `AtomicRefCell`) -/
+def Drivable (cast : CastFn) (t : MetaTable) (excl : Bool) (w : MWorld) : Prop :=
+  ∀ ty ∈ t.tys, ∀ c, w.cell ty = some c →
+    (Shred.tryBorrow c.borrow excl).isSome ∧ (cast ty c.addr).addr = c.addr ∧ c.borrow ≠ .shared 0
+
+/-- the state of a call relative to the world `w0` it started in: exactly the cells of the types in
+`kept` (the items alive) carry one more borrow; all of them lie before the cursor -/
+structure DInv (t : MetaTable) (excl : Bool) (w0 w : MWorld) (i : Nat) (kept : List Nat) : Prop where
+  cells : ∀ k, w.cell k = if k ∈ kept then (w0.cell k).map (borrowCell excl) else w0.cell k
+  visited : ∀ ty ∈ kept, ty ∉ t.tys.drop i
+  mem : ∀ ty ∈ kept, ty ∈ t.tys
+
+theorem DInv.start (t : MetaTable) (excl : Bool) (w : MWorld) (i : Nat) : DInv t excl w w i [] :=
+  ⟨by intro k; simp, by simp, by simp⟩
+
+theorem mem_drop_of_le {l : List Nat} {i j : Nat} (h : i ≤ j) {x : Nat} (hx : x ∈ l.drop j) :
+    x ∈ l.drop i := by
+  have : l.drop j = (l.drop i).drop (j - i) := by rw [List.drop_drop]; congr 1; omega
+  rw [this] at hx
+  exact List.mem_of_mem_drop hx
+
+theorem DInv.mono {t : MetaTable} {excl : Bool} {w0 w : MWorld} {i j : Nat} {kept : List Nat}
+    (h : DInv t excl w0 w i kept) (hij : i ≤ j) : DInv t excl w0 w j kept :=
+  ⟨h.cells, fun ty hty hm => h.visited ty hty (mem_drop_of_le hij hm), h.mem⟩
+
+theorem remaining_past (t : MetaTable) (w : MWorld) (i : Nat) :
+    remaining t w (i + (t.tys.drop i).length) = [] := by
+  unfold remaining
+  have : t.tys.drop (i + (t.tys.drop i).length) = [] := by
+    apply List.drop_eq_nil_iff.mpr
+    simp only [List.length_drop]; omega
+  rw [this]; rfl
+
+theorem releaseBorrow_tryBorrow {b b' : Borrow} {excl : Bool}
+    (h : Shred.tryBorrow b excl = some b') (hwf : b ≠ .shared 0) : MWorld.releaseBorrow b' = b := by
+  cases b with
+  | free => cases excl <;> (cases h; rfl)
+  | excl => cases excl <;> cases h
+  | shared n =>
+    cases excl
+    · cases h
+      cases n with
+      | zero => exact absurd rfl hwf
+      | succ m => rfl
+    · cases h
+
+/-- `next` when nothing is left: `None`, nothing changes -/
+theorem next_drive_nil {cast : CastFn} {t : MetaTable} {excl : Bool} {w0 w : MWorld} {i : Nat}
+    {kept : List Nat} (hd : DInv t excl w0 w i kept) (hL : remaining t w0 i = []) :
+    t.next cast w ⟨i, excl⟩ = (w, ⟨i + (t.tys.drop i).length, excl⟩, .none) := by
+  have hall : ∀ x ∈ t.tys.drop i, w.cell x = none := by
+    intro x hx
+    have hp : w0.present x = false := by
+      have := List.filter_eq_nil_iff.mp hL x hx
+      simpa using this
+    have h0 : w0.cell x = none := by simpa [MWorld.present] using hp
+    rw [hd.cells]
+    split <;> simp [h0]
+  rw [next_eq, nextFrom_miss cast t.vtableFns excl _ i w hall]
+
+/-- `next` when `ty` is the first type left: its item, kept -/
+theorem next_drive_cons {cast : CastFn} {t : MetaTable} {excl : Bool} {w0 w : MWorld} {i : Nat}
+    {kept : List Nat} {ty : Nat} {L' : List Nat} (hinv : MetaInv t) (hok : Drivable cast t excl w0)
+    (hd : DInv t excl w0 w i kept) (hL : remaining t w0 i = ty :: L') :
+    ∃ w' i', t.next cast w ⟨i, excl⟩ = (w', ⟨i', excl⟩, .item (cast ty (addrOf w0 ty))) ∧
+      t.slotTy i' = ty ∧ remaining t w0 i' = L' ∧ DInv t excl w0 w' i' (kept ++ [ty]) ∧
+      ty ∉ kept ∧ ty ∈ t.tys ∧ w0.present ty = true := by
+  obtain ⟨pre, rest, hdrop, hpre, hty, hrest⟩ := List.filter_eq_cons_iff.mp hL
+  have hmem_drop : ty ∈ t.tys.drop i := by rw [hdrop]; simp
+  have hmem : ty ∈ t.tys := List.mem_of_mem_drop hmem_drop
+  have hnk : ty ∉ kept := fun h => hd.visited ty h hmem_drop
+  obtain ⟨c, hc0⟩ : ∃ c, w0.cell ty = some c :=
+    Option.isSome_iff_exists.mp (by simpa [MWorld.present] using hty)
+  have hc : w.cell ty = some c := by rw [hd.cells, if_neg hnk, hc0]
+  have hpre' : ∀ x ∈ pre, w.cell x = none := by
+    intro x hx
+    have h0 : w0.cell x = none := by
+      have := hpre x hx
+      simpa [MWorld.present] using this
+    rw [hd.cells]
+    split <;> simp [h0]
+  obtain ⟨hb, hcast, _⟩ := hok ty hmem c hc0
+  obtain ⟨b', hb'⟩ := Option.isSome_iff_exists.mp hb
+  have hrestdrop : t.tys.drop (i + pre.length + 1) = rest := by
+    have h2 : t.tys.drop (i + pre.length + 1) = (t.tys.drop i).drop (pre.length + 1) := by
+      rw [List.drop_drop]; congr 1
+    rw [h2, hdrop]
+    simp
+  have hnd : (pre ++ ty :: rest).Nodup := by
+    rw [← hdrop]
+    exact List.Nodup.sublist (List.drop_sublist i t.tys) hinv.nodup
+  have hnotrest : ty ∉ rest := by
+    have := (List.nodup_append.mp hnd).2.1
+    exact (List.nodup_cons.mp this).1
+  refine ⟨w.set ty (some { c with borrow := b' }), i + pre.length + 1, ?_, ?_, ?_, ?_, hnk, hmem, hty⟩
+  · rw [next_eq, hinv.vt, nextFrom_hit cast t.tys excl i w pre ty rest c hdrop hpre' hc]
+    simp [hb', hcast, addrOf, hc0]
+  · unfold MetaTable.slotTy
+    have : (t.tys.drop i)[pre.length]? = some ty := by rw [hdrop]; simp
+    rw [List.getElem?_drop] at this
+    simp [this]
+  · unfold remaining
+    rw [hrestdrop]; exact hrest
+  · refine ⟨?_, ?_, ?_⟩
+    · intro k
+      rw [MWorld.set_cell]
+      by_cases hk : k = ty
+      · subst hk
+        simp [hc0, borrowCell, hb']
+      · rw [if_neg hk, hd.cells]
+        simp [hk]
+    · intro x hx
+      rw [hrestdrop]
+      rcases List.mem_append.mp hx with hx | hx
+      · intro hr
+        apply hd.visited x hx
+        rw [hdrop]; simp [hr]
+      · have : x = ty := by simpa using hx
+        subst this; exact hnotrest
+    · intro x hx
+      rcases List.mem_append.mp hx with hx | hx
+      · exact hd.mem x hx
+      · have : x = ty := by simpa using hx
+        subst this; exact hmem
+
+/-- dropping an item that is alive -/
+theorem release_drive {cast : CastFn} {t : MetaTable} {excl : Bool} {w0 w : MWorld} {i : Nat}
+    {kept : List Nat} {ty : Nat} (hok : Drivable cast t excl w0) (hd : DInv t excl w0 w i kept)
+    (hty : ty ∈ kept) : DInv t excl w0 (w.release ty) i (kept.filter (· ≠ ty)) := by
+  refine ⟨?_, ?_, ?_⟩
+  · intro k
+    have hwty : w.cell ty = (w0.cell ty).map (borrowCell excl) := by rw [hd.cells, if_pos hty]
+    have hkmem : k ≠ ty → (k ∈ kept.filter (· ≠ ty) ↔ k ∈ kept) := by
+      intro hk; simp [List.mem_filter, hk]
+    cases h0 : w0.cell ty with
+    | none =>
+      have : w.release ty = w := by
+        unfold MWorld.release
+        rw [hwty, h0]; rfl
+      rw [this]
+      by_cases hk : k = ty
+      · subst hk
+        rw [hwty, h0]
+        simp
+      · rw [hd.cells]
+        by_cases hkk : k ∈ kept
+        · rw [if_pos hkk, if_pos ((hkmem hk).mpr hkk)]
+        · rw [if_neg hkk, if_neg (fun h => hkk ((hkmem hk).mp h))]
+    | some c =>
+      obtain ⟨hb, _, hwf⟩ := hok ty (hd.mem ty hty) c h0
+      obtain ⟨b', hb'⟩ := Option.isSome_iff_exists.mp hb
+      have hwc : w.cell ty = some { c with borrow := b' } := by
+        rw [hwty, h0]; simp [borrowCell, hb']
+      unfold MWorld.release
+      rw [hwc]
+      simp only [MWorld.set_cell]
+      by_cases hk : k = ty
+      · subst hk
+        simp [releaseBorrow_tryBorrow hb' hwf, h0]
+      · rw [if_neg hk, hd.cells]
+        by_cases hkk : k ∈ kept
+        · rw [if_pos hkk, if_pos ((hkmem hk).mpr hkk)]
+        · rw [if_neg hkk, if_neg (fun h => hkk ((hkmem hk).mp h))]
+  · intro x hx
+    exact hd.visited x (List.mem_filter.mp hx).1
+  · intro x hx
+    exact hd.mem x (List.mem_filter.mp hx).1
+
+theorem filter_ne_append_self {kept : List Nat} {ty : Nat} (h : ty ∉ kept) :
+    (kept ++ [ty]).filter (· ≠ ty) = kept := by
+  rw [List.filter_append]
+  have h1 : kept.filter (· ≠ ty) = kept := by
+    apply List.filter_eq_self.mpr
+    intro a ha
+    have : a ≠ ty := fun e => h (e ▸ ha)
+    simpa using this
+  rw [h1]
+  simp
+
+/-- `advance_by(n)`: the first `n` types left are borrowed and released in turn; the world is,
+cell by cell, the one before -/
+theorem advanceBy_drive {cast : CastFn} {t : MetaTable} {excl : Bool} {w0 : MWorld}
+    (hinv : MetaInv t) (hok : Drivable cast t excl w0) :
+    ∀ (n : Nat) (w : MWorld) (i : Nat) (kept : List Nat), DInv t excl w0 w i kept →
+      ∃ w' i', DInv t excl w0 w' i' kept ∧
+        ((n ≤ (remaining t w0 i).length ∧ advanceBy cast t excl n w i = (w', i', .ok) ∧
+            remaining t w0 i' = (remaining t w0 i).drop n) ∨
+         ((remaining t w0 i).length < n ∧ advanceBy cast t excl n w i = (w', i', .short) ∧
+            remaining t w0 i' = [])) := by
+  intro n
+  induction n with
+  | zero =>
+    intro w i kept hd
+    exact ⟨w, i, hd, Or.inl ⟨Nat.zero_le _, rfl, by simp⟩⟩
+  | succ n ih =>
+    intro w i kept hd
+    cases hL : remaining t w0 i with
+    | nil =>
+      refine ⟨w, i + (t.tys.drop i).length, hd.mono (by omega), Or.inr ⟨by simp, ?_, remaining_past t w0 i⟩⟩
+      simp only [advanceBy, next_drive_nil hd hL]
+    | cons ty L' =>
+      obtain ⟨w', i', hnext, hslot, hrem, hd', hnk, _, _⟩ := next_drive_cons hinv hok hd hL
+      have hrel := release_drive (ty := ty) hok hd' (by simp)
+      rw [filter_ne_append_self hnk] at hrel
+      obtain ⟨w'', i'', hd'', hres⟩ := ih (w'.release ty) i' kept hrel
+      have hstep : advanceBy cast t excl (n + 1) w i = advanceBy cast t excl n (w'.release ty) i' := by
+        simp only [advanceBy, hnext, hslot]
+      refine ⟨w'', i'', hd'', ?_⟩
+      rw [hstep]
+      rw [hrem] at hres
+      rcases hres with ⟨h1, h2, h3⟩ | ⟨h1, h2, h3⟩
+      · exact Or.inl ⟨by simp; omega, h2, by simpa using h3⟩
+      · exact Or.inr ⟨by simp; omega, h2, h3⟩
+
+/-- what a call that hands out at most one item did: `d` of the types `L` that were to come are
+dropped on the way, the next one is handed out and kept -/
+def Pulled (cast : CastFn) (t : MetaTable) (excl : Bool) (w0 : MWorld) (kept : List Nat)
+    (L : List Nat) (d : Nat) (r : MWorld × MIter × NextOut) : Prop :=
+  match L.drop d with
+  | ty :: L' => ∃ w' i', r = (w', ⟨i', excl⟩, .item (cast ty (addrOf w0 ty))) ∧ t.slotTy i' = ty ∧
+      remaining t w0 i' = L' ∧ DInv t excl w0 w' i' (kept ++ [ty]) ∧ ty ∉ kept ∧ ty ∈ t.tys
+  | [] => ∃ w' i', r = (w', ⟨i', excl⟩, .none) ∧ remaining t w0 i' = [] ∧ DInv t excl w0 w' i' kept
+
+theorem next_pulled {cast : CastFn} {t : MetaTable} {excl : Bool} {w0 w : MWorld} {i : Nat}
+    {kept : List Nat} (hinv : MetaInv t) (hok : Drivable cast t excl w0)
+    (hd : DInv t excl w0 w i kept) :
+    Pulled cast t excl w0 kept (remaining t w0 i) 0 (t.next cast w ⟨i, excl⟩) := by
+  unfold Pulled
+  rw [List.drop_zero]
+  cases hL : remaining t w0 i with
+  | nil =>
+    exact ⟨w, _, next_drive_nil hd hL, remaining_past t w0 i, hd.mono (by omega)⟩
+  | cons ty L' =>
+    obtain ⟨w', i', h1, h2, h3, h4, h5, h6, _⟩ := next_drive_cons hinv hok hd hL
+    exact ⟨w', i', h1, h2, h3, h4, h5, h6⟩
+
+/-- **`nth(n)` is the `n`-th type left** (counting from 0), or `None` -/
+theorem nth_pulled {cast : CastFn} {t : MetaTable} {excl : Bool} {w0 w : MWorld} {i : Nat}
+    {kept : List Nat} (hinv : MetaInv t) (hok : Drivable cast t excl w0)
+    (hd : DInv t excl w0 w i kept) (n : Nat) :
+    Pulled cast t excl w0 kept (remaining t w0 i) n (t.nth cast w ⟨i, excl⟩ n) := by
+  obtain ⟨w', i', hd', hres⟩ := advanceBy_drive hinv hok n w i kept hd
+  rcases hres with ⟨_, hadv, hrem⟩ | ⟨hlt, hadv, hrem⟩
+  · have hp := next_pulled (cast := cast) hinv hok hd'
+    have hn : t.nth cast w ⟨i, excl⟩ n = t.next cast w' ⟨i', excl⟩ := by
+      simp only [MetaTable.nth, hadv]
+    rw [hn]
+    unfold Pulled at hp ⊢
+    rw [hrem, List.drop_zero] at hp
+    exact hp
+  · have hn : t.nth cast w ⟨i, excl⟩ n = (w', ⟨i', excl⟩, .none) := by
+      simp only [MetaTable.nth, hadv]
+    unfold Pulled
+    have : (remaining t w0 i).drop n = [] := List.drop_eq_nil_iff.mpr (by omega)
+    rw [this]
+    exact ⟨w', i', hn, hrem, hd'⟩
+
+/-! ### the adapters, on the list of types left -/
+
+/-- `step_by(s + 1)` on a list, `c` elements still to be dropped before the next one is taken -/
+def stepSel (s : Nat) : Nat → List Nat → List Nat
+  | _, [] => []
+  | 0, x :: xs => x :: stepSel s s xs
+  | c + 1, _ :: xs => stepSel s c xs
+
+/-- which of the types left an adapter hands on: all, all but the first `n`, the first and then
+every `step`-th, the first `n` -/
+def sel : Adapter → List Nat → List Nat
+  | .plain, L => L
+  | .skip n, L => L.drop n
+  | .stepBy s first, L => stepSel s (if first then 0 else s) L
+  | .take n, L => L.take n
+
+/-- one `next` of the adapter on the list of types left: the type handed on, the adapter and the
+list afterwards -/
+def adStep : Adapter → List Nat → Option (Nat × Adapter × List Nat)
+  | .plain, L =>
+    match L with
+    | ty :: L' => some (ty, .plain, L')
+    | [] => none
+  | .skip n, L =>
+    match L.drop n with
+    | ty :: L' => some (ty, .skip 0, L')
+    | [] => none
+  | .stepBy s first, L =>
+    match L.drop (if first then 0 else s) with
+    | ty :: L' => some (ty, .stepBy s false, L')
+    | [] => none
+  | .take 0, _ => none
+  | .take (n + 1), L =>
+    match L with
+    | ty :: L' => some (ty, .take n, L')
+    | [] => none
+
+/-- the types left when the adapter has answered `None`: `take(n)` stops after `n` items without
+asking the iterator again, the others run it to the end -/
+def adRest : Adapter → List Nat → List Nat
+  | .take n, L => L.drop n
+  | _, _ => []
+
+theorem adRest_step {ad ad' : Adapter} {L L' : List Nat} {ty : Nat}
+    (h : adStep ad L = some (ty, ad', L')) : adRest ad' L' = adRest ad L := by
+  cases ad with
+  | plain =>
+    cases L with
+    | nil => simp [adStep] at h
+    | cons x xs => simp only [adStep, Option.some.injEq, Prod.mk.injEq] at h; obtain ⟨_, rfl, _⟩ := h; rfl
+  | skip n =>
+    simp only [adStep] at h
+    cases hd : L.drop n with
+    | nil => rw [hd] at h; simp at h
+    | cons x xs =>
+      rw [hd] at h
+      simp only [Option.some.injEq, Prod.mk.injEq] at h
+      obtain ⟨_, rfl, _⟩ := h; rfl
+  | stepBy s first =>
+    simp only [adStep] at h
+    cases hd : L.drop (if first then 0 else s) with
+    | nil => rw [hd] at h; simp at h
+    | cons x xs =>
+      rw [hd] at h
+      simp only [Option.some.injEq, Prod.mk.injEq] at h
+      obtain ⟨_, rfl, _⟩ := h; rfl
+  | take n =>
+    cases n with
+    | zero => simp [adStep] at h
+    | succ n =>
+      cases L with
+      | nil => simp [adStep] at h
+      | cons x xs =>
+        simp only [adStep, Option.some.injEq, Prod.mk.injEq] at h
+        obtain ⟨_, rfl, rfl⟩ := h
+        simp [adRest]
+
+theorem stepSel_drop (s : Nat) : ∀ (c : Nat) (L : List Nat), stepSel s c L = stepSel s 0 (L.drop c) := by
+  intro c
+  induction c with
+  | zero => intro L; simp
+  | succ c ih =>
+    intro L
+    cases L with
+    | nil => simp [stepSel]
+    | cons x xs => simp only [stepSel, List.drop_succ_cons]; exact ih xs
+
+/-- `sel` is what iterating `adStep` gives -/
+theorem sel_unfold (ad : Adapter) (L : List Nat) :
+    sel ad L = match adStep ad L with
+      | some (ty, ad', L') => ty :: sel ad' L'
+      | none => [] := by
+  cases ad with
+  | plain => cases L <;> simp [sel, adStep]
+  | skip n =>
+    simp only [sel, adStep]
+    cases h : L.drop n <;> simp
+  | stepBy s first =>
+    simp only [sel, adStep]
+    rw [stepSel_drop]
+    cases h : L.drop (if first then 0 else s) with
+    | nil => simp [stepSel]
+    | cons x xs => simp [stepSel]
+  | take n =>
+    cases n with
+    | zero => simp [sel, adStep]
+    | succ n => cases L <;> simp [sel, adStep]
+
+theorem adStep_length {ad ad' : Adapter} {L L' : List Nat} {ty : Nat}
+    (h : adStep ad L = some (ty, ad', L')) : L'.length < L.length := by
+  have key : ∀ d, L.drop d = ty :: L' → L'.length < L.length := by
+    intro d hd
+    have := congrArg List.length hd
+    simp only [List.length_drop, List.length_cons] at this
+    omega
+  cases ad with
+  | plain =>
+    cases L with
+    | nil => simp [adStep] at h
+    | cons x xs => simp only [adStep, Option.some.injEq, Prod.mk.injEq] at h; obtain ⟨_, _, rfl⟩ := h; simp
+  | skip n =>
+    simp only [adStep] at h
+    cases hd : L.drop n with
+    | nil => rw [hd] at h; simp at h
+    | cons x xs =>
+      rw [hd] at h
+      simp only [Option.some.injEq, Prod.mk.injEq] at h
+      obtain ⟨rfl, _, rfl⟩ := h
+      exact key n hd
+  | stepBy s first =>
+    simp only [adStep] at h
+    cases hd : L.drop (if first then 0 else s) with
+    | nil => rw [hd] at h; simp at h
+    | cons x xs =>
+      rw [hd] at h
+      simp only [Option.some.injEq, Prod.mk.injEq] at h
+      obtain ⟨rfl, _, rfl⟩ := h
+      exact key _ hd
+  | take n =>
+    cases n with
+    | zero => simp [adStep] at h
+    | succ n =>
+      cases L with
+      | nil => simp [adStep] at h
+      | cons x xs => simp only [adStep, Option.some.injEq, Prod.mk.injEq] at h; obtain ⟨_, _, rfl⟩ := h; simp
+
+/-- one `next` of an adapter, relative to the starting world -/
+theorem adNext_drive {cast : CastFn} {t : MetaTable} {excl : Bool} {w0 w : MWorld} {i : Nat}
+    {kept : List Nat} (hinv : MetaInv t) (hok : Drivable cast t excl w0)
+    (hd : DInv t excl w0 w i kept) (ad : Adapter) :
+    match adStep ad (remaining t w0 i) with
+    | some (ty, ad', L') =>
+      ∃ w' i', adNext cast t excl ad w i = (ad', w', i', .item (cast ty (addrOf w0 ty))) ∧
+        t.slotTy i' = ty ∧ remaining t w0 i' = L' ∧ DInv t excl w0 w' i' (kept ++ [ty]) ∧
+        ty ∉ kept ∧ ty ∈ t.tys
+    | none => ∃ ad' w' i', adNext cast t excl ad w i = (ad', w', i', .none) ∧ DInv t excl w0 w' i' kept ∧
+        remaining t w0 i' = adRest ad (remaining t w0 i) := by
+  have pulled : ∀ (d : Nat) (r : MWorld × MIter × NextOut) (ad' : Adapter),
+      Pulled cast t excl w0 kept (remaining t w0 i) d r →
+      match (match (remaining t w0 i).drop d with
+             | ty :: L' => some (ty, ad', L')
+             | [] => (none : Option (Nat × Adapter × List Nat))) with
+      | some (ty, ad'', L') =>
+        ∃ w' i', (ad', r.1, r.2.1.index, r.2.2) = (ad'', w', i', NextOut.item (cast ty (addrOf w0 ty))) ∧
+          t.slotTy i' = ty ∧ remaining t w0 i' = L' ∧ DInv t excl w0 w' i' (kept ++ [ty]) ∧
+          ty ∉ kept ∧ ty ∈ t.tys
+      | none => ∃ ad'' w' i', (ad', r.1, r.2.1.index, r.2.2) = (ad'', w', i', NextOut.none) ∧
+          DInv t excl w0 w' i' kept ∧ remaining t w0 i' = [] := by
+    intro d r ad' hp
+    unfold Pulled at hp
+    cases hL : (remaining t w0 i).drop d with
+    | nil =>
+      rw [hL] at hp
+      obtain ⟨w', i', rfl, hr, hd'⟩ := hp
+      exact ⟨ad', w', i', rfl, hd', hr⟩
+    | cons ty L' =>
+      rw [hL] at hp
+      obtain ⟨w', i', rfl, h2, h3, h4, h5, h6⟩ := hp
+      exact ⟨w', i', rfl, h2, h3, h4, h5, h6⟩
+  cases ad with
+  | plain =>
+    have := pulled 0 _ .plain (next_pulled (cast := cast) hinv hok hd)
+    simpa only [adStep, adNext, adRest, List.drop_zero] using this
+  | skip n =>
+    have := pulled n _ (.skip 0) (nth_pulled (cast := cast) hinv hok hd n)
+    simpa only [adStep, adNext, adRest] using this
+  | stepBy s first =>
+    have := pulled (if first then 0 else s) _ (.stepBy s false)
+      (nth_pulled (cast := cast) hinv hok hd (if first then 0 else s))
+    simpa only [adStep, adNext, adRest] using this
+  | take n =>
+    cases n with
+    | zero => exact ⟨.take 0, w, i, rfl, hd, by simp [adRest]⟩
+    | succ n =>
+      have := pulled 0 _ (.take n) (next_pulled (cast := cast) hinv hok hd)
+      rw [List.drop_zero] at this
+      simp only [adStep, adNext]
+      cases hL : remaining t w0 i with
+      | nil =>
+        rw [hL] at this
+        obtain ⟨ad'', w', i', h1, h2, h3⟩ := this
+        exact ⟨ad'', w', i', h1, h2, by simp [adRest, h3]⟩
+      | cons x xs =>
+        rw [hL] at this
+        exact this
+
+/-! ### the consumers -/
+
+/-- the item of type `ty` in the starting world `w0`, as the `kept` lists record it -/
+def itemOf (cast : CastFn) (w0 : MWorld) (ty : Nat) : Nat × TraitPtr := (ty, cast ty (addrOf w0 ty))
+
+/-- `collect` / `for_each` / `fold`: no panic, the items of `sel ad L` in order, exactly their
+cells borrowed once more -/
+theorem collectVia_drive {cast : CastFn} {t : MetaTable} {excl : Bool} {w0 : MWorld}
+    (hinv : MetaInv t) (hok : Drivable cast t excl w0) :
+    ∀ (fuel : Nat) (ad : Adapter) (w : MWorld) (i : Nat) (kept : List (Nat × TraitPtr)),
+      DInv t excl w0 w i (kept.map (·.1)) → (remaining t w0 i).length < fuel →
+      (collectVia cast t excl fuel ad w i kept).panic = none ∧
+      (collectVia cast t excl fuel ad w i kept).kept =
+        kept ++ (sel ad (remaining t w0 i)).map (itemOf cast w0) ∧
+      (collectVia cast t excl fuel ad w i kept).seen = (collectVia cast t excl fuel ad w i kept).kept.length ∧
+      DInv t excl w0 (collectVia cast t excl fuel ad w i kept).world
+        (collectVia cast t excl fuel ad w i kept).index
+        ((collectVia cast t excl fuel ad w i kept).kept.map (·.1)) ∧
+      remaining t w0 (collectVia cast t excl fuel ad w i kept).index = adRest ad (remaining t w0 i) := by
+  intro fuel
+  induction fuel with
+  | zero => intro ad w i kept _ hf; omega
+  | succ fuel ih =>
+    intro ad w i kept hd hf
+    have hstep := adNext_drive (cast := cast) hinv hok hd ad
+    rw [sel_unfold]
+    cases hs : adStep ad (remaining t w0 i) with
+    | none =>
+      rw [hs] at hstep
+      obtain ⟨ad', w', i', hn, hd'⟩ := hstep
+      have hcv : collectVia cast t excl (fuel + 1) ad w i kept = ⟨w', i', kept, kept.length, none⟩ := by
+        simp only [collectVia, hn]
+      rw [hcv]
+      exact ⟨rfl, by simp, rfl, hd'.1, hd'.2⟩
+    | some v =>
+      obtain ⟨ty, ad', L'⟩ := v
+      rw [hs] at hstep
+      obtain ⟨w', i', hn, hslot, hrem, hd', _, _⟩ := hstep
+      have hlen := adStep_length hs
+      have hd'' : DInv t excl w0 w' i' ((kept ++ [(t.slotTy i', cast ty (addrOf w0 ty))]).map (·.1)) := by
+        simpa [hslot] using hd'
+      have := ih ad' w' i' (kept ++ [(t.slotTy i', cast ty (addrOf w0 ty))]) hd'' (by rw [hrem]; omega)
+      simp only [collectVia, hn]
+      rw [hrem] at this
+      obtain ⟨h1, h2, h3, h4, h5⟩ := this
+      refine ⟨h1, ?_, h3, h4, by rw [h5, adRest_step hs]⟩
+      rw [h2, hslot]
+      simp [itemOf]
+
+/-- `last()`: no panic, the item of the last type of `sel ad L` (else what was there before)
+alive, no other -/
+theorem lastVia_drive {cast : CastFn} {t : MetaTable} {excl : Bool} {w0 : MWorld}
+    (hinv : MetaInv t) (hok : Drivable cast t excl w0) :
+    ∀ (fuel : Nat) (ad : Adapter) (w : MWorld) (i : Nat) (prev : Option (Nat × TraitPtr)) (seen : Nat),
+      DInv t excl w0 w i (prev.toList.map (·.1)) → (remaining t w0 i).length < fuel →
+      (lastVia cast t excl fuel ad w i prev seen).panic = none ∧
+      (lastVia cast t excl fuel ad w i prev seen).kept =
+        (match (sel ad (remaining t w0 i)).getLast? with
+         | some ty => [itemOf cast w0 ty]
+         | none => prev.toList) ∧
+      (lastVia cast t excl fuel ad w i prev seen).seen = seen + (sel ad (remaining t w0 i)).length ∧
+      DInv t excl w0 (lastVia cast t excl fuel ad w i prev seen).world
+        (lastVia cast t excl fuel ad w i prev seen).index
+        ((lastVia cast t excl fuel ad w i prev seen).kept.map (·.1)) ∧
+      remaining t w0 (lastVia cast t excl fuel ad w i prev seen).index = adRest ad (remaining t w0 i) := by
+  intro fuel
+  induction fuel with
+  | zero => intro ad w i prev seen _ hf; omega
+  | succ fuel ih =>
+    intro ad w i prev seen hd hf
+    have hstep := adNext_drive (cast := cast) hinv hok hd ad
+    rw [sel_unfold]
+    cases hs : adStep ad (remaining t w0 i) with
+    | none =>
+      rw [hs] at hstep
+      obtain ⟨ad', w', i', hn, hd'⟩ := hstep
+      have hcv : lastVia cast t excl (fuel + 1) ad w i prev seen = ⟨w', i', prev.toList, seen, none⟩ := by
+        simp only [lastVia, hn]
+      rw [hcv]
+      exact ⟨rfl, by simp, by simp, hd'.1, hd'.2⟩
+    | some v =>
+      obtain ⟨ty, ad', L'⟩ := v
+      rw [hs] at hstep
+      obtain ⟨w', i', hn, hslot, hrem, hd', hnk, _⟩ := hstep
+      have hlen := adStep_length hs
+      -- the previous item is dropped
+      have hd'' : DInv t excl w0 (dropPrev w' prev) i' [ty] := by
+        cases prev with
+        | none => simpa [dropPrev] using hd'
+        | some pv =>
+          obtain ⟨pty, pp⟩ := pv
+          have hne : ty ≠ pty := by
+            intro e; apply hnk; simp [e]
+          have := release_drive (ty := pty) hok hd' (by simp)
+          simpa [dropPrev, List.filter_cons, hne] using this
+      have := ih ad' _ i' (some (t.slotTy i', cast ty (addrOf w0 ty))) (seen + 1)
+        (by simpa [hslot] using hd'') (by rw [hrem]; omega)
+      simp only [lastVia, hn]
+      rw [hrem] at this
+      obtain ⟨h1, h2, h3, h4, h5⟩ := this
+      refine ⟨h1, ?_, ?_, h4, by rw [h5, adRest_step hs]⟩
+      · rw [h2, hslot, List.getLast?_cons]
+        cases (sel ad' L').getLast? <;> simp [itemOf]
+      · rw [h3]; simp; omega
+
+/-- `count()`: no panic, the number of types in `sel ad L`, no item alive -/
+theorem countVia_drive {cast : CastFn} {t : MetaTable} {excl : Bool} {w0 : MWorld}
+    (hinv : MetaInv t) (hok : Drivable cast t excl w0) :
+    ∀ (fuel : Nat) (ad : Adapter) (w : MWorld) (i : Nat) (seen : Nat),
+      DInv t excl w0 w i [] → (remaining t w0 i).length < fuel →
+      (countVia cast t excl fuel ad w i seen).panic = none ∧
+      (countVia cast t excl fuel ad w i seen).kept = [] ∧
+      (countVia cast t excl fuel ad w i seen).seen = seen + (sel ad (remaining t w0 i)).length ∧
+      DInv t excl w0 (countVia cast t excl fuel ad w i seen).world
+        (countVia cast t excl fuel ad w i seen).index [] ∧
+      remaining t w0 (countVia cast t excl fuel ad w i seen).index = adRest ad (remaining t w0 i) := by
+  intro fuel
+  induction fuel with
+  | zero => intro ad w i seen _ hf; omega
+  | succ fuel ih =>
+    intro ad w i seen hd hf
+    have hstep := adNext_drive (cast := cast) hinv hok hd ad
+    rw [sel_unfold]
+    cases hs : adStep ad (remaining t w0 i) with
+    | none =>
+      rw [hs] at hstep
+      obtain ⟨ad', w', i', hn, hd'⟩ := hstep
+      have hcv : countVia cast t excl (fuel + 1) ad w i seen = ⟨w', i', [], seen, none⟩ := by
+        simp only [countVia, hn]
+      rw [hcv]
+      exact ⟨rfl, rfl, by simp, hd'.1, hd'.2⟩
+    | some v =>
+      obtain ⟨ty, ad', L'⟩ := v
+      rw [hs] at hstep
+      obtain ⟨w', i', hn, hslot, hrem, hd', _, _⟩ := hstep
+      have hlen := adStep_length hs
+      have hrel := release_drive (ty := ty) hok hd' (by simp)
+      have hrel' : DInv t excl w0 (w'.release ty) i' [] := by simpa using hrel
+      have := ih ad' (w'.release ty) i' (seen + 1) hrel' (by rw [hrem]; omega)
+      simp only [countVia, hn, hslot]
+      rw [hrem] at this
+      obtain ⟨h1, h2, h3, h4, h5⟩ := this
+      refine ⟨h1, h2, ?_, h4, by rw [h5, adRest_step hs]⟩
+      rw [h3]; simp; omega
+
 end Meta
 end Shred
